@@ -70,6 +70,11 @@ CHECKS = {
     text="TLC shows on small graphs that every task sees pristine inputs under all schedules exactly when no task modifies an argument, and produces complete schedules for the dependency structure of each real graph. The harness runs the real tasks one by one in the canonical order, in the TLC-generated orders and in orders that put each consumer of a shared key first / last, hashing all argument objects before and after every call, all outputs, and the user's source objects; it also recomputes collections and uses real thread pools. TLC validates per execution: dependencies finished first, each key written once, inb = ina for every task (no mutation), every key's output equals the canonical run's, sources intact, final result equal.",
     note="Trusted: TLC; sha1-of-pickle content hashes; partd files / barrier tokens of disk shuffles are treated as external state by design; outputs below a disk shuffle are hashed order-insensitively; thread-pool runs are a sample of interleavings (final result and sources only).",
     design="5.3 C05"),
+ "C19": dict(
+    technique="TLA+ model of the Expr.simplify convergence loop model-checked by TLC for every rule-set behaviour (termination as liveness, bounded passes, fixed point, raises only on a real cycle); hook-recorded pass sequences of real optimize() runs validated by TLC as converging behaviours within bounds; names across repetitions / hash seeds / processes; re-optimization",
+    text="TLC checks the loop for all 4^4 x 4 (rule-set function, start expression) pairs: it always stops within K+1 passes, a converged result is a fixed point (optimizing again changes nothing) and non-convergence is reported only when the rules really cycle. For TLC-generated programs (general and filter focus, plus every conjunction filter over a merge and head/tail templates over no-op repartitions) the guarded hooks record every simplify pass and accepted rewrite of optimize(); TLC requires each simplify call to be a converging behaviour of the modelled loop (chained passes, last pass unchanged, no expression produced twice) within 25 passes and 40 rewrites per tree node, no RuntimeError/other exception, one plan name over three in-process rebuilds and two fresh interpreters with other PYTHONHASHSEED, and that the optimized and the twice-optimized collection compute what the query computes whenever its unoptimized lowering does.",
+    note="Trusted: TLC; the hooks (if the hooked lines vanish, traces_without_hook_events reports it and only the observational clauses decide); bounds are generous constants, measured maxima are in the evidence. Equality of the re-optimized plan NAME is reported, not required (the statement requires an unchanged result).",
+    design="5.0 C19"),
 }
 
 def main():
